@@ -86,13 +86,18 @@ class Sess:
                 if op == "listscripts":
                     act = srv.active.decode("utf-8") if srv.active is not None else None
                     exp = ("ret", (act, [n.decode("utf-8") for n in srv.scripts if n != srv.active]))
+                elif op == "capability":
+                    exp = None
+                    if got[0] != "ret" or got[1] is None:
+                        self.fails.append(("result-is-not-the-answer-to-this-command|capability|OK", det))
+                        return
                 elif op == "getscript":
                     exp = ("ret", ("lines", [x.decode("utf-8") for x in wire.split_lines(srv.scripts[args[0].encode("utf-8")])]))
                 else:
                     exp = ("ret", True)
             else:
-                exp = ("ret", None if op in ("listscripts", "getscript") else False)
-            if not R.matches(exp, got):
+                exp = ("ret", None if op in ("listscripts", "getscript", "capability") else False)
+            if exp is not None and not R.matches(exp, got):
                 self.fails.append(("result-is-not-the-answer-to-this-command|%s|%s" % (op, stt.decode()), dict(det, expected=exp)))
                 return
             if stt == b"NO":
@@ -231,6 +236,10 @@ def worker(arg):
         @rule(data=st.data(), name=st.sampled_from(NAMES), size=st.sampled_from([0, 10, 399, 401, 10 ** 9]))
         def havespace(self, data, name, size):
             self._do(data, "havespace", (name, size))
+
+        @rule(data=st.data())
+        def capability(self, data):
+            self._do(data, "capability", ())
 
         @rule(data=st.data(), body=R.script_body())
         def checkscript(self, data, body):
